@@ -3,6 +3,7 @@
   Stated for the connection the state machine tracks (single-connection regime, see C12).
 -/
 import Yabgp.Lemmas.Norm
+import Yabgp.Spec.RfcFrame
 
 namespace Yabgp
 open Sess
@@ -118,6 +119,77 @@ theorem C04_segmentation (i : Nat) (chunks : List Bytes) (hne : chunks ≠ []) :
 
 end Yabgp
 
+namespace Yabgp
+open Sess Spec
+
+theorem take16_all_iff (b : Bytes) (h : 16 ≤ b.length) : (b.take 16).all (· == 0xff) = true ↔ b.take 16 = marker := by
+  constructor
+  · intro hall
+    apply List.ext_getElem
+    · simp [marker]; omega
+    · intro i h1 h2
+      have hm : marker[i]'h2 = 0xff := by unfold marker; exact List.getElem_replicate ..
+      rw [hm]
+      have := List.all_eq_true.mp hall ((b.take 16)[i]'h1) (List.getElem_mem h1)
+      simpa using this
+  · intro he
+    rw [he]; decide
+
+/-- **The model deframer is the RFC 4271 deframer**: what `parse_buffer` sees at the head of the receive buffer is,
+    for every byte string, exactly what §4.1 / §6.1 of the RFC say - wait, Connection Not Synchronized, Bad Message
+    Length (with the erroneous field), or a message of the announced type, body and length. -/
+theorem C04_deframer_is_rfc (b : Bytes) :
+    headOf b = match firstFrame b with
+               | .incomplete => .short
+               | .notSynchronized => .badMarker
+               | .badLength len => .badLength len
+               | .message ty body _ => .frame ty body (frameLen b) := by
+  by_cases h19 : b.length < 19
+  · simp [headOf, firstFrame, h19, C.hdrLen]
+  · have h16 : 16 ≤ b.length := by omega
+    by_cases hm : b.take 16 = marker
+    · have hall : (b.take 16).all (· == 0xff) = true := (take16_all_iff b h16).mpr hm
+      obtain ⟨l1, l2, ty, r, hd⟩ : ∃ l1 l2 ty r, b.drop 16 = l1 :: l2 :: ty :: r := by
+        have hl : 3 ≤ (b.drop 16).length := by simp; omega
+        match hdd : b.drop 16, hl with
+        | l1 :: l2 :: ty :: r, _ => exact ⟨l1, l2, ty, r, rfl⟩
+      have gk : ∀ k, b.getD (16 + k) 0 = (b.drop 16).getD k 0 := by
+        intro k; simp [List.getD_eq_getElem?_getD]
+      have g16 : b.getD 16 0 = l1 := by have := gk 0; rw [hd] at this; simpa using this
+      have g17 : b.getD 17 0 = l2 := by have := gk 1; rw [hd] at this; simpa using this
+      have g18 : b.getD 18 0 = ty := by have := gk 2; rw [hd] at this; simpa using this
+      have hfl : frameLen b = l1.toNat * 256 + l2.toNat := by unfold frameLen; rw [g16, g17]
+      have hL : headOf b =
+          if frameLen b < 19 ∨ frameLen b > 4096 then .badLength (frameLen b)
+          else if b.length < frameLen b then .short
+          else .frame ty.toNat ((b.take (frameLen b)).drop 19) (frameLen b) := by
+        unfold headOf
+        rw [if_neg (by simpa [C.hdrLen] using h19), if_neg (by simp [hm]), g18]
+        rfl
+      have hR : firstFrame b =
+          if frameLen b < 19 ∨ 4096 < frameLen b then .badLength (frameLen b)
+          else if b.length < frameLen b then .incomplete
+          else .message ty.toNat ((b.take (frameLen b)).drop 19) (b.drop (frameLen b)) := by
+        unfold firstFrame
+        rw [if_neg h19, if_neg (by simp [hall]), hd, hfl]
+      rw [hL, hR]
+      by_cases hbad : frameLen b < 19 ∨ frameLen b > 4096
+      · rw [if_pos hbad, if_pos hbad]
+      · rw [if_neg hbad, if_neg hbad]
+        by_cases hs : b.length < frameLen b
+        · rw [if_pos hs, if_pos hs]
+        · rw [if_neg hs, if_neg hs]
+    · have hall : ¬ (b.take 16).all (· == 0xff) = true := fun h => hm ((take16_all_iff b h16).mp h)
+      have hL : headOf b = .badMarker := by
+        unfold headOf
+        rw [if_neg (by simpa [C.hdrLen] using h19), if_pos (by simpa using hm)]
+      have hR : firstFrame b = .notSynchronized := by
+        unfold firstFrame
+        rw [if_neg h19, if_pos hall]
+      rw [hL, hR]
+
+end Yabgp
+
 #print axioms Yabgp.C04_terminates
 #print axioms Yabgp.C04_progress
 #print axioms Yabgp.C04_two_segments
@@ -200,3 +272,4 @@ theorem C04_framing_violation (s : Sess) (i : Nat) (buf : Bytes) (hp : s.proto =
 end Yabgp
 
 #print axioms Yabgp.C04_framing_violation
+#print axioms Yabgp.C04_deframer_is_rfc
